@@ -252,6 +252,8 @@ class World:
         problem = SingleObjectiveProblem(ff, minimize)
         b = budget_obj or EvaluationBudget(budget)
         kw = dict(problem=problem, budget=b, representation=self.rep, random=self.random)
+        if self.case.get("random_omitted"):
+            del kw["random"]  # the algorithm's documented default: its own source with seed 0
         if tracker is not None:
             kw["tracker"] = tracker(problem)
         if alg == "rs":
